@@ -606,7 +606,18 @@ class TenSym(PySym):
             return None
         if isinstance(v, slice):
             return v
-        if isinstance(v, (list, tuple)):
+        if isinstance(v, tuple):
+            # a tuple held in a variable is a multi-dimensional subscript: a[key] with key = (rows, cols)
+            def one_(x_):
+                if x_ is None or x_ is Ellipsis or isinstance(x_, slice):
+                    return x_
+                if isinstance(x_, (list, tuple)):
+                    return [self.concrete(y_) for y_ in x_]
+                if isinstance(x_, Ten):
+                    return [self.concrete(y_) for y_ in x_.data] if x_.ndim == 1 else self.concrete(x_.data[0])
+                return self.concrete(x_)
+            return tuple(one_(x_) for x_ in v)
+        if isinstance(v, list):
             return [self.concrete(x) for x in v]
         if isinstance(v, Ten):
             if v.isbool:
